@@ -34,7 +34,7 @@ type c11Scenario struct {
 	PointTimes bool       `json:"use_point_times"`
 	Stream     bool       `json:"stream_form"`
 	PeriodS    int        `json:"period_s"`
-	WinS       int        `json:"window_period_s"` // the window period: 10 (tumbling) or 3 (gaps, empty batches occur)
+	WinS       int        `json:"window_period_s"` // the window period: 10 (tumbling), 3 (gaps, empty batches occur) or 20 (overlapping: every point is seen by two windows)
 	Groups     []c11Group `json:"groups"`
 	Script     string     `json:"script"`
 	Config     string     `json:"config"`
@@ -44,7 +44,7 @@ var c11Fns = []string{"count", "sum", "mean", "median", "mode", "min", "max", "f
 
 func c11Gen(c *Ctx) *c11Scenario {
 	g := c.G
-	sc := &c11Scenario{Fn: c11Fns[g.Intn(len(c11Fns))], PeriodS: 10, WinS: []int{10, 10, 3}[g.Intn(3)]}
+	sc := &c11Scenario{Fn: c11Fns[g.Intn(len(c11Fns))], PeriodS: 10, WinS: []int{10, 10, 3, 20}[g.Intn(4)]}
 	switch sc.Fn {
 	case "percentile":
 		sc.Arg = []int{50, 0, 1, 25, 75, 99, 100}[g.Intn(7)]
@@ -72,6 +72,9 @@ func c11Gen(c *Ctx) *c11Scenario {
 		nw := g.Range(1, 4)
 		for w := 0; w < nw; w++ {
 			isF := g.Bool()
+			if sc.WinS > sc.PeriodS && w > 0 {
+				isF = gr.Float[0] // overlapping windows: one field kind per group, so that no batch mixes kinds
+			}
 			gr.Float = append(gr.Float, isF)
 			n := []int{0, 1, 2, 3, 5, 8}[g.Intn(6)]
 			t := w*sc.PeriodS + g.Intn(3)
@@ -607,7 +610,7 @@ func init() {
 	Register(&Prop{
 		ID:  "C11",
 		Run: runC11,
-		Rule: "case = one of 19 aggregation functions (with percentile argument, top/bottom n, movingAverage window, as(), usePointTimes()) below a tumbling 10s window (or, for count/sum/mean/min/max, directly on the stream with runs of equal-time points) over 1-3 groups, each with 1-4 windows of 0-8 values that are int or float per window (duplicates, negatives, magnitudes up to 1e15 / 1e300, field kind changing between windows), one concurrent writer per group; " +
+		Rule: "case = one of 19 aggregation functions (with percentile argument, top/bottom n, movingAverage window, as(), usePointTimes()) below a window emitted every 10s with period 10s (tumbling), 3s (gaps, empty batches) or 20s (overlapping: every point is aggregated twice) (or, for count/sum/mean/min/max, directly on the stream with runs of equal-time points) over 1-3 groups, each with 1-4 windows of 0-8 values that are int or float per window (duplicates, negatives, magnitudes up to 1e15 / 1e300, field kind changing between windows), one concurrent writer per group; " +
 			"non-trivial = the definition gives at least one output; distinct = distinct (scenario, interleaving signature) pairs",
 		Real:        []string{"InfluxQLNode (BeginBatch/BatchPoint/EndBatch, stream mode, streaming transformations), generated reduce contexts (influxql.gen.go) on the influxdb query reducers", "WindowNode, FromNode/groupBy, LogNode, TaskMaster, httpd write endpoint"},
 		Stub:        []string{"log sink below the aggregation node"},
